@@ -84,7 +84,10 @@ def gen_exact(rng, i):
         T.append(Mt @ x + c0); cls.append("corner")
     T.append(Mt @ lbv + c0 - np.abs(rng.normal(0, 0.2, m)) * Z.extent - 0.01 * Z.extent); cls.append("below-baseline")
     T.append(Z.centre + rng.normal(0, 3, m) * Z.extent); cls.append("far")
-    s.update({"B": np.array(T), "classes": cls, "rank1": bool(rng.integers(4) == 0), "relative": bool(rng.integers(4) != 0)})
+    T = np.array(T)
+    if i % 7 == 3:
+        T = np.round(T)      # integer-valued targets (handed over as int64 by the harness); class labels become approximate
+    s.update({"B": T, "classes": cls, "rank1": bool(rng.integers(4) == 0), "relative": bool(rng.integers(4) != 0)})
     return s
 
 
